@@ -75,6 +75,17 @@ def programs(tier):
     yield mk("same-inline-twice", [("place", "e1", "small-lamp", I(10), I(20), None), ("prop", "e1", "enable", B(">", X, I(3))),
                                    ("place", "e2", "small-lamp", I(12), I(20), None), ("prop", "e2", "enable", B(">", X, I(4)))],
              {"e1": ("small-lamp", 10, 20, B(">", X, I(3))), "e2": ("small-lamp", 12, 20, B(">", X, I(4)))}, {}, {})
+    # textually identical conditions on several entities (candidates for common-subexpression elimination)
+    for tag, ex in (("cmp", B(">", X, I(3))), ("arith", B(">", B("+", X, Y), I(3))), ("and", B("&&", B(">", X, I(3)), B("<", Y, I(4)))),
+                    ("plain", B("*", X, I(2)))):
+        body, ents = [], {}
+        for n, (proto, px) in enumerate((("small-lamp", 10), ("small-lamp", 12), ("inserter", 14))):
+            body += [("place", f"e{n}", proto, I(px), I(20), None), ("prop", f"e{n}", "enable", ex)]
+            ents[f"e{n}"] = (proto, px, 20, ex)
+        yield mk(f"identical-x3/{tag}", body, ents, {}, {})
+    yield mk("identical-in-loop", [("for", "j", ("range", 0, 3, None), [("place", "e", "small-lamp", B("+", V("j"), I(10)), I(22), None),
+                                                                       ("prop", "e", "enable", B("&&", B(">", X, I(3)), B("<", Y, I(4))))])],
+             {f"e{n}": ("small-lamp", 10 + n, 22, B("&&", B(">", X, I(3)), B("<", Y, I(4)))) for n in range(3)}, {}, {})
     yield mk("three-share-source", [("place", "e1", "small-lamp", I(10), I(20), None), ("prop", "e1", "enable", B(">", X, I(3))),
                                     ("place", "e2", "inserter", I(12), I(20), None), ("prop", "e2", "enable", B("<", X, I(0))),
                                     ("place", "e3", "small-lamp", I(14), I(20), None), ("prop", "e3", "enable", B(">", B("*", X, I(2)), I(7)))],
